@@ -1025,6 +1025,17 @@ impl Real {
                     "splice_tag" => rest.first().and_then(|k| other(k)).map(|o| { w.tag = o.tag.clone(); w.write() }),
                     "splice_encs" => rest.first().and_then(|k| other(k)).map(|o| { w.hyb = o.hyb; w.encs = o.encs.clone(); w.write() }),
                     "reflavour" => { if w.hyb == 1 { w.hyb = 0; for e in w.encs.iter_mut() { e.0.clear(); } Some(w.write()) } else { None } }
+                    // the same encapsulation written differently: one of its LEB128 fields (0: number of traps, 1: flavour,
+                    // 2: number of components) re-encoded with a redundant continuation byte (`02` -> `82 00`)
+                    "noncanon" => num(0).and_then(|k| {
+                        let p = match k { 0 => 16, 1 => 17 + w.c.len() * crate::wire::sz::PK, _ => 18 + w.c.len() * crate::wire::sz::PK };
+                        if w.c.len() < 0x80 && p < bytes.len() && bytes[p] < 0x80 {
+                            let mut o = bytes[..p].to_vec();
+                            o.extend_from_slice(&[bytes[p] | 0x80, 0x00]);
+                            o.extend_from_slice(&bytes[p + 1..]);
+                            Some(o)
+                        } else { None }
+                    }),
                     _ => None,
                 };
                 let Some(out) = out else { return "bad-op".into() };
